@@ -137,6 +137,13 @@ def orientation_counts_rule(ctx, pa, rule):
                     r = ld[r.id][0]
             recvs.setdefault(norm(r), []).append(c)
     if not recvs:
+        # majority taken with max()/min() over a table of counts: ties are then resolved by the order in which the
+        # orientations were first seen, but a tie must anchor on the first node (forward)
+        for c in walk_own(pa.node):
+            if isinstance(c, ast.Call) and isinstance(c.func, ast.Name) and c.func.id in ("max", "min") and any(k.arg == "key" for k in c.keywords) and c.args and isinstance(c.args[0], ast.Name):
+                d = [x for x in ld.get(c.args[0].id, []) if x is not None]
+                if d and isinstance(d[0], ast.Call) and norm(d[0].func).split(".")[-1] in ("Counter", "dict", "defaultdict"):
+                    ctx.violated(rule, pa.where(c), f"the dominant orientation is chosen with `{norm(c)[:60]}`: on a tie between '>' and '<' the result is whichever orientation was seen first, so a tied alignment that starts reversed is anchored on its last node (ties must anchor on the first node)", key_of(pa, f"majority-by-max:{norm(c)[:50]}"))
         raise AnalysisError(rule, pa.where(), "no orientation counts in the key extraction")
     appended = {}
     for c in walk_own(pa.node):
